@@ -119,22 +119,22 @@ Definition stack_fits (depth_fixed : bool) (stack : option nat) : Prop :=
    or a non-empty error list: no Panic, no OutOfFuel — on an unbounded stack,
    and with the nesting limit on every stack of MAX_SETTING_DEPTH + 1 frames *)
 Definition header_total_stmt : Prop :=
-  forall depth_fixed stack src required, stack_fits depth_fixed stack -> exists r,
-    parse_header_gen true depth_fixed required stack (fuel_for src) src = Done r /\
+  forall depth_fixed ctor_ws stack src required, stack_fits depth_fixed stack -> exists r,
+    parse_header_gen true depth_fixed ctor_ws required stack (fuel_for src) src = Done r /\
     (is_ok r \/ errors r <> []).
 
 (* with any fuel, the only other outcome of the repaired parser is OutOfFuel
    (never Panic) *)
 Definition header_never_panics_stmt : Prop :=
-  forall depth_fixed stack src required fuel, stack_fits depth_fixed stack ->
-    parse_header_gen true depth_fixed required stack fuel src <> Panic.
+  forall depth_fixed ctor_ws stack src required fuel, stack_fits depth_fixed stack ->
+    parse_header_gen true depth_fixed ctor_ws required stack fuel src <> Panic.
 
 (* every span of a value or an error of a finished parse — of every variant, on
    every stack — is start <= end <= |src| on char boundaries, and every error
    has a span *)
 Definition header_spans_wellformed_stmt : Prop :=
-  forall fixed depth_fixed stack src required fuel r,
-    parse_header_gen fixed depth_fixed required stack fuel src = Done r ->
+  forall fixed depth_fixed ctor_ws stack src required fuel r,
+    parse_header_gen fixed depth_fixed ctor_ws required stack fuel src = Done r ->
     Forall (span_wf src) (result_spans r) /\ Forall (fun e => elocs e <> []) (errors r).
 
 (* ---- the nesting limit ----------------------------------------------------- *)
@@ -144,9 +144,9 @@ Definition header_spans_wellformed_stmt : Prop :=
    MAX_SETTING_DEPTH + 1 frames: a stack with that much room is never exhausted,
    the run is the run on an unbounded stack *)
 Definition header_depth_bounded_stmt : Prop :=
-  forall fixed src required fuel s, MAX_SETTING_DEPTH < s ->
-    parse_header_gen fixed true required (Some s) fuel src =
-    parse_header_gen fixed true required None fuel src.
+  forall fixed ctor_ws src required fuel s, MAX_SETTING_DEPTH < s ->
+    parse_header_gen fixed true ctor_ws required (Some s) fuel src =
+    parse_header_gen fixed true ctor_ws required None fuel src.
 
 (* %grmtools{a: followed by n '[' *)
 Definition DEEP_HDR : list N := [37; 103; 114; 109; 116; 111; 111; 108; 115; 123; 97; 58]%N.
@@ -156,15 +156,15 @@ Definition DEEP_WITNESS (n : nat) : list N := DEEP_HDR ++ repeat 91%N n.
    is a text (DEEP_WITNESS (s+1)) on which the recursion exhausts it — with
    enough fuel to get there, whatever the other flags *)
 Definition header_depth_unbounded_refuted_stmt : Prop :=
-  forall s fixed required fuel, fuel_for (DEEP_WITNESS (S s)) <= fuel ->
-    parse_header_gen fixed false required (Some s) fuel (DEEP_WITNESS (S s)) = Panic.
+  forall s fixed ctor_ws required fuel, fuel_for (DEEP_WITNESS (S s)) <= fuel ->
+    parse_header_gen fixed false ctor_ws required (Some s) fuel (DEEP_WITNESS (S s)) = Panic.
 
 (* the bound MAX_SETTING_DEPTH + 1 is exact: the nesting limit does not protect
    a stack of only MAX_SETTING_DEPTH frames (the call that reports the error
    runs at depth MAX_SETTING_DEPTH) *)
 Definition header_depth_bound_tight_stmt : Prop :=
-  exists src, forall required,
-    parse_header_gen true true required (Some MAX_SETTING_DEPTH) (fuel_for src) src = Panic.
+  exists src, forall ctor_ws required,
+    parse_header_gen true true ctor_ws required (Some MAX_SETTING_DEPTH) (fuel_for src) src = Panic.
 
 (* ---- the pinned code is not total ---------------------------------------- *)
 
